@@ -32,6 +32,7 @@ package pubsub
 // Send: a message is either rejected (closed / too large even alone) leaving the buffer untouched, or
 // appended after the messages still pending -- flushing those first, in one batch, if it would not fit
 //@ func (*MessageBuffer).Send props C32
+//@   opt monitor m.l
 //@   requires RI(m)
 //@   uses encSize_frame
 //@   reveal encSize
@@ -43,6 +44,7 @@ package pubsub
 //@   ensures (err == nil) == (!old(m.closed) && msgSize(len(msg)) <= m.maxSize)
 
 //@ func (*MessageBuffer).Close props C32
+//@   opt monitor m.l
 //@   requires RI(m)
 //@   modifies m.pendingSize, m.pending, m.closed
 //@   ensures err == nil ==> m.closed && len(m.pending) == 0
